@@ -116,11 +116,12 @@ func funcSubStr(kv KVPair, args []Expression, ctx *ExecuteCtx) (any, error) {
 	}
 	length := int(toInt(rarg, 0))
 	vlen := len(val)
-	if start > vlen-1 {
+	// the third argument is the end position (exclusive), not a length
+	end := min(length, vlen)
+	if start < 0 || start >= end {
 		return "", nil
 	}
-	length = min(length, vlen-start)
-	return val[start:length], nil
+	return val[start:end], nil
 }
 
 func min(a, b int) int {
